@@ -212,7 +212,7 @@ def run(ctx: Ctx):
     run_corpus(ctx, PROP, check_case)
     budget = ctx.budget_s * (0.72 if ctx.quick else 0.85)
     for c in cases(ctx):
-        if ctx.elapsed() > budget:
+        if ctx.elapsed() > budget or len(ctx.violations) + len(ctx.mismatches) >= 40:
             break
         check_case(ctx, c)
         ctx.case(c, nontrivial=any(o.get("op") == "get" for o in c["ops"]))
